@@ -24,8 +24,10 @@ def strip_comments(src):
     return "\n".join(l.split("--")[0] for l in src.split("\n"))
 
 
-def build():
-    r = subprocess.run(["lake", "build"], cwd=LEAN_DIR, capture_output=True, text=True)
+def build(prop=None):
+    """build the property's theorem module (with everything it imports) and the protocol driver"""
+    targets = ["npdriver"] + ([f"NPModel.Props.{prop}"] if prop else [])
+    r = subprocess.run(["lake", "build"] + targets, cwd=LEAN_DIR, capture_output=True, text=True)
     return r.returncode == 0, (r.stdout + r.stderr)[-3000:]
 
 
@@ -54,10 +56,10 @@ def grep_forbidden():
 def audit(prop, thorough=False):
     """-> dict(ok, obligations, discharged, theorems, broken, detail, checker_cmd, trusted_base)"""
     res = {"ok": True, "obligations": 0, "discharged": 0, "theorems": [], "broken": None, "detail": None,
-           "checker_cmd": "cd lean/NPModel && lake build && lake env lean <generated #print axioms file>",
+           "checker_cmd": f"cd lean/NPModel && lake build npdriver NPModel.Props.{prop} && lake env lean .lake/audit/{prop}.lean  (#print axioms of every theorem)",
            "trusted_base": TRUSTED}
-    ok, out = build()
     path, thms = theorems_of(prop)
+    ok, out = build(prop if path else None)
     if path is None:
         res.update(ok=False, broken=f"NPModel/Props/{prop}.lean missing")
         return res
